@@ -310,7 +310,7 @@ pub fn as_radix_16(s: &Scalar) -> [i8; 64] {
 pub fn as_radix_2w(s: &Scalar, w: usize) -> [i8; 64] {
     s.as_radix_2w(w)
 }
-#[cfg(any(feature = "alloc", feature = "precomputed-tables"))]
+#[cfg(feature = "alloc")]
 pub fn to_radix_2w_size_hint(w: usize) -> usize {
     Scalar::to_radix_2w_size_hint(w)
 }
@@ -461,4 +461,503 @@ pub fn ristretto_basepoint_table_entry(i: usize, j: usize) -> [Fe; 3] {
 pub fn affine_odd_multiples_entry(k: usize) -> [Fe; 3] {
     let e = &constants::AFFINE_ODD_MULTIPLES_OF_BASEPOINT.0[k];
     [Fe(e.y_plus_x), Fe(e.y_minus_x), Fe(e.xy2d)]
+}
+
+// ---------------------------------------------------------------------------------------
+// Bound monitors for the vector field code. Each documented-precondition method of the AVX2 /
+// IFMA field types calls `monitor_*` at entry (guarded); the monitor compares the lanes with the
+// documented bound, keeps the largest value seen per site and latches the first violation.
+// It never alters the computation.
+// ---------------------------------------------------------------------------------------
+
+use core::sync::atomic::AtomicU64;
+
+pub const SITE_AVX2_NEGATE_LAZY: usize = 0;
+pub const SITE_AVX2_DIFF_SUM: usize = 1;
+pub const SITE_AVX2_SQUARE_AND_NEGATE_D: usize = 2;
+pub const SITE_AVX2_NEG: usize = 3;
+pub const SITE_AVX2_MUL_LHS: usize = 4;
+pub const SITE_AVX2_MUL_RHS: usize = 5;
+pub const SITE_IFMA_MUL_LHS: usize = 6;
+pub const SITE_IFMA_MUL_RHS: usize = 7;
+pub const SITE_IFMA_SQUARE: usize = 8;
+pub const SITE_IFMA_MUL_CONSTS: usize = 9;
+pub const SITE_IFMA_NEGATE_LAZY: usize = 10;
+pub const NSITES: usize = 11;
+
+pub const SITE_NAMES: [&str; NSITES] = [
+    "avx2::negate_lazy (b < 0.999)",
+    "avx2::diff_sum (b < 0.01)",
+    "avx2::square_and_negate_D (b < 1.5)",
+    "avx2::Neg (b < 4.0)",
+    "avx2::Mul lhs (b < 2.5)",
+    "avx2::Mul rhs (b < 1.75)",
+    "ifma::Mul lhs (limbs < 2^52)",
+    "ifma::Mul rhs (limbs < 2^52)",
+    "ifma::square (limbs < 2^52)",
+    "ifma::Mul<(u32,u32,u32,u32)> (limbs < 2^52)",
+    "ifma::negate_lazy (limbs <= 16p limbs)",
+];
+
+/// documented bound per site, exclusive: a limb >= the entry violates the precondition.
+/// AVX2: (ceil(2^(26+b)), ceil(2^(25+b))) for the even (26-bit) and odd (25-bit) limbs;
+/// IFMA: (limb 0, limbs 1..4).
+pub const SITE_BOUNDS: [(u64, u64); NSITES] = [
+    (134124728, 67062364),   // b < 0.999: ceil(2^26.999), ceil(2^25.999)
+    (67575644, 33787822),    // b < 0.01
+    (189812532, 94906266),   // b < 1.5
+    (1073741824, 536870912), // b < 4.0
+    (379625063, 189812532),  // b < 2.5
+    (225726413, 112863207),  // b < 1.75
+    (1 << 52, 1 << 52),
+    (1 << 52, 1 << 52),
+    (1 << 52, 1 << 52),
+    (1 << 52, 1 << 52),
+    (36028797018963664 + 1, 36028797018963952 + 1),
+];
+
+static MON_MAX_EVEN: [AtomicU64; NSITES] = [const { AtomicU64::new(0) }; NSITES];
+static MON_MAX_ODD: [AtomicU64; NSITES] = [const { AtomicU64::new(0) }; NSITES];
+static MON_CALLS: [AtomicU64; NSITES] = [const { AtomicU64::new(0) }; NSITES];
+/// 0 = none; otherwise 1 + site of the first violated precondition
+static MON_VIOLATION: AtomicU64 = AtomicU64::new(0);
+static MON_VIOLATION_VALUE: AtomicU64 = AtomicU64::new(0);
+
+fn mon_record(site: usize, even_max: u64, odd_max: u64) {
+    MON_CALLS[site].fetch_add(1, Ordering::Relaxed);
+    MON_MAX_EVEN[site].fetch_max(even_max, Ordering::Relaxed);
+    MON_MAX_ODD[site].fetch_max(odd_max, Ordering::Relaxed);
+    let (be, bo) = SITE_BOUNDS[site];
+    if even_max >= be || odd_max >= bo {
+        if MON_VIOLATION
+            .compare_exchange(0, 1 + site as u64, Ordering::SeqCst, Ordering::SeqCst)
+            .is_ok()
+        {
+            MON_VIOLATION_VALUE.store(if even_max >= be { even_max } else { odd_max }, Ordering::SeqCst);
+        }
+    }
+}
+
+/// (calls, max even limb, max odd limb) per site since the last reset
+pub fn monitor_stats() -> [(u64, u64, u64); NSITES] {
+    let mut o = [(0u64, 0u64, 0u64); NSITES];
+    for i in 0..NSITES {
+        o[i] = (
+            MON_CALLS[i].load(Ordering::Relaxed),
+            MON_MAX_EVEN[i].load(Ordering::Relaxed),
+            MON_MAX_ODD[i].load(Ordering::Relaxed),
+        );
+    }
+    o
+}
+/// Some((site, offending limb value)) if a documented precondition was violated since the last reset
+pub fn monitor_violation() -> Option<(usize, u64)> {
+    match MON_VIOLATION.load(Ordering::SeqCst) {
+        0 => None,
+        s => Some((s as usize - 1, MON_VIOLATION_VALUE.load(Ordering::SeqCst))),
+    }
+}
+pub fn monitor_reset_violation() {
+    MON_VIOLATION.store(0, Ordering::SeqCst);
+}
+pub fn monitor_reset_all() {
+    for i in 0..NSITES {
+        MON_CALLS[i].store(0, Ordering::Relaxed);
+        MON_MAX_EVEN[i].store(0, Ordering::Relaxed);
+        MON_MAX_ODD[i].store(0, Ordering::Relaxed);
+    }
+    MON_VIOLATION.store(0, Ordering::SeqCst);
+}
+
+#[cfg(curve25519_dalek_backend = "simd")]
+pub fn monitor_avx2(site: usize, v: &[crate::backend::vector::packed_simd::u32x8; 5]) {
+    let mut even = 0u64;
+    let mut odd = 0u64;
+    for x in v.iter() {
+        // lane order (a_2i, b_2i, a_2i+1, b_2i+1, c_2i, d_2i, c_2i+1, d_2i+1)
+        let l: [u32; 8] = unsafe { core::mem::transmute(*x) };
+        for j in [0usize, 1, 4, 5] {
+            even = even.max(l[j] as u64);
+        }
+        for j in [2usize, 3, 6, 7] {
+            odd = odd.max(l[j] as u64);
+        }
+    }
+    mon_record(site, even, odd);
+}
+
+#[cfg(all(curve25519_dalek_backend = "unstable_avx512", nightly))]
+pub fn monitor_ifma(site: usize, v: &[crate::backend::vector::packed_simd::u64x4; 5]) {
+    let mut lo = 0u64;
+    let mut hi = 0u64;
+    for (i, x) in v.iter().enumerate() {
+        let l: [u64; 4] = unsafe { core::mem::transmute(*x) };
+        for j in 0..4 {
+            if i == 0 {
+                lo = lo.max(l[j]);
+            } else {
+                hi = hi.max(l[j]);
+            }
+        }
+    }
+    // "even" slot = limb 0, "odd" slot = limbs 1..4 (they have different 16p limbs for negate_lazy)
+    mon_record(site, lo, hi);
+}
+
+// ---------------------------------------------------------------------------------------
+// AVX2 vector field and point types
+// ---------------------------------------------------------------------------------------
+
+#[cfg(curve25519_dalek_backend = "simd")]
+pub mod avx2 {
+    use super::Fe;
+    use crate::backend::vector::avx2::field::{FieldElement2625x4, Lanes, Shuffle};
+    use crate::backend::vector::avx2::{CachedPoint, ExtendedPoint};
+    use crate::backend::vector::packed_simd::u32x8;
+    use crate::edwards::EdwardsPoint;
+    use subtle::{Choice, ConditionallySelectable};
+
+    /// Four field elements in the AVX2 representation. `l[lane][limb]`, ten 26/25-bit limbs.
+    #[derive(Copy, Clone)]
+    pub struct V4(pub(crate) FieldElement2625x4);
+
+    fn shuf(c: u8) -> Shuffle {
+        match c % 10 {
+            0 => Shuffle::AAAA,
+            1 => Shuffle::BBBB,
+            2 => Shuffle::CACA,
+            3 => Shuffle::DBBD,
+            4 => Shuffle::ADDA,
+            5 => Shuffle::CBCB,
+            6 => Shuffle::ABAB,
+            7 => Shuffle::BADC,
+            8 => Shuffle::BACD,
+            _ => Shuffle::ABDC,
+        }
+    }
+    fn lanes(c: u8) -> Lanes {
+        match c % 8 {
+            0 => Lanes::C,
+            1 => Lanes::D,
+            2 => Lanes::AB,
+            3 => Lanes::AC,
+            4 => Lanes::CD,
+            5 => Lanes::AD,
+            6 => Lanes::BC,
+            _ => Lanes::ABCD,
+        }
+    }
+
+    impl V4 {
+        pub fn from_lanes(l: &[[u32; 10]; 4]) -> V4 {
+            let mut v = [u32x8::splat(0); 5];
+            for i in 0..5 {
+                v[i] = u32x8::new(
+                    l[0][2 * i],
+                    l[1][2 * i],
+                    l[0][2 * i + 1],
+                    l[1][2 * i + 1],
+                    l[2][2 * i],
+                    l[3][2 * i],
+                    l[2][2 * i + 1],
+                    l[3][2 * i + 1],
+                );
+            }
+            V4(FieldElement2625x4(v))
+        }
+        pub fn lanes(&self) -> [[u32; 10]; 4] {
+            let mut l = [[0u32; 10]; 4];
+            for i in 0..5 {
+                let x: [u32; 8] = unsafe { core::mem::transmute((self.0).0[i]) };
+                l[0][2 * i] = x[0];
+                l[1][2 * i] = x[1];
+                l[0][2 * i + 1] = x[2];
+                l[1][2 * i + 1] = x[3];
+                l[2][2 * i] = x[4];
+                l[3][2 * i] = x[5];
+                l[2][2 * i + 1] = x[6];
+                l[3][2 * i + 1] = x[7];
+            }
+            l
+        }
+        pub fn new(a: &Fe, b: &Fe, c: &Fe, d: &Fe) -> V4 {
+            V4(FieldElement2625x4::new(&a.0, &b.0, &c.0, &d.0))
+        }
+        pub fn splat(a: &Fe) -> V4 {
+            V4(FieldElement2625x4::splat(&a.0))
+        }
+        pub fn zero() -> V4 {
+            V4(FieldElement2625x4::ZERO)
+        }
+        pub fn split(&self) -> [Fe; 4] {
+            let s = self.0.split();
+            [Fe(s[0]), Fe(s[1]), Fe(s[2]), Fe(s[3])]
+        }
+        pub fn shuffle(&self, control: u8) -> V4 {
+            V4(self.0.shuffle(shuf(control)))
+        }
+        pub fn blend(&self, other: &V4, control: u8) -> V4 {
+            V4(self.0.blend(other.0, lanes(control)))
+        }
+        pub fn negate_lazy(&self) -> V4 {
+            V4(self.0.negate_lazy())
+        }
+        pub fn diff_sum(&self) -> V4 {
+            V4(self.0.diff_sum())
+        }
+        pub fn reduce(&self) -> V4 {
+            V4(self.0.reduce())
+        }
+        pub fn square_and_negate_d(&self) -> V4 {
+            V4(self.0.square_and_negate_D())
+        }
+        pub fn neg(&self) -> V4 {
+            V4(-self.0)
+        }
+        pub fn add(&self, o: &V4) -> V4 {
+            V4(self.0 + o.0)
+        }
+        pub fn mul_consts(&self, c: (u32, u32, u32, u32)) -> V4 {
+            V4(self.0 * c)
+        }
+        pub fn mul(&self, o: &V4) -> V4 {
+            V4(&self.0 * &o.0)
+        }
+        pub fn conditional_select(a: &V4, b: &V4, c: u8) -> V4 {
+            V4(FieldElement2625x4::conditional_select(&a.0, &b.0, Choice::from(c)))
+        }
+        pub fn conditional_assign(&self, o: &V4, c: u8) -> V4 {
+            let mut t = self.0;
+            t.conditional_assign(&o.0, Choice::from(c));
+            V4(t)
+        }
+    }
+
+    // points: an ExtendedPoint / CachedPoint is a V4 with a meaning
+    pub fn extended_from_edwards(p: &EdwardsPoint) -> V4 {
+        V4(ExtendedPoint::from(*p).verif_raw())
+    }
+    pub fn extended_to_edwards(v: &V4) -> EdwardsPoint {
+        EdwardsPoint::from(ExtendedPoint::verif_from_raw(v.0))
+    }
+    pub fn extended_double(v: &V4) -> V4 {
+        V4(ExtendedPoint::verif_from_raw(v.0).double().verif_raw())
+    }
+    pub fn extended_mul_by_pow_2(v: &V4, k: u32) -> V4 {
+        V4(ExtendedPoint::verif_from_raw(v.0).mul_by_pow_2(k).verif_raw())
+    }
+    pub fn cached_from_extended(v: &V4) -> V4 {
+        V4(CachedPoint::from(ExtendedPoint::verif_from_raw(v.0)).verif_raw())
+    }
+    pub fn cached_neg(v: &V4) -> V4 {
+        V4((-&CachedPoint::verif_from_raw(v.0)).verif_raw())
+    }
+    pub fn extended_add_cached(e: &V4, c: &V4, subtract: bool) -> V4 {
+        let e = ExtendedPoint::verif_from_raw(e.0);
+        let c = CachedPoint::verif_from_raw(c.0);
+        if subtract {
+            V4((&e - &c).verif_raw())
+        } else {
+            V4((&e + &c).verif_raw())
+        }
+    }
+    pub fn identities() -> (V4, V4) {
+        use crate::traits::Identity;
+        (
+            V4(ExtendedPoint::identity().verif_raw()),
+            V4(CachedPoint::identity().verif_raw()),
+        )
+    }
+    /// Entry k (0..64) of the AVX2 odd-multiples table of the basepoint, as a CachedPoint.
+    #[cfg(feature = "precomputed-tables")]
+    pub fn basepoint_odd_table_entry(k: usize) -> V4 {
+        V4(crate::backend::vector::avx2::constants::BASEPOINT_ODD_LOOKUP_TABLE.0[k].verif_raw())
+    }
+    /// (2p lo, 2p hi, 16p lo, 16p hi) vectors, raw lanes
+    pub fn p_multiples() -> [[u32; 8]; 4] {
+        use crate::backend::vector::avx2::constants::*;
+        unsafe {
+            [
+                core::mem::transmute(P_TIMES_2_LO),
+                core::mem::transmute(P_TIMES_2_HI),
+                core::mem::transmute(P_TIMES_16_LO),
+                core::mem::transmute(P_TIMES_16_HI),
+            ]
+        }
+    }
+}
+
+// ---------------------------------------------------------------------------------------
+// AVX-512 IFMA vector field and point types
+// ---------------------------------------------------------------------------------------
+
+#[cfg(all(curve25519_dalek_backend = "unstable_avx512", nightly))]
+pub mod ifma {
+    use super::Fe;
+    use crate::backend::vector::ifma::field::{F51x4Reduced, F51x4Unreduced, Lanes, Shuffle};
+    use crate::backend::vector::ifma::{CachedPoint, ExtendedPoint};
+    use crate::backend::vector::packed_simd::u64x4;
+    use crate::edwards::EdwardsPoint;
+    use subtle::{Choice, ConditionallySelectable};
+
+    /// Four field elements, five 51-bit limbs each, `l[lane][limb]`; unreduced or reduced flavour.
+    #[derive(Copy, Clone)]
+    pub struct U4(pub(crate) F51x4Unreduced);
+    #[derive(Copy, Clone)]
+    pub struct R4(pub(crate) F51x4Reduced);
+
+    fn shuf(c: u8) -> Shuffle {
+        match c % 10 {
+            0 => Shuffle::AAAA,
+            1 => Shuffle::BBBB,
+            2 => Shuffle::BADC,
+            3 => Shuffle::BACD,
+            4 => Shuffle::ADDA,
+            5 => Shuffle::CBCB,
+            6 => Shuffle::ABDC,
+            7 => Shuffle::ABAB,
+            8 => Shuffle::DBBD,
+            _ => Shuffle::CACA,
+        }
+    }
+    fn lanes(c: u8) -> Lanes {
+        match c % 6 {
+            0 => Lanes::D,
+            1 => Lanes::C,
+            2 => Lanes::AB,
+            3 => Lanes::AC,
+            4 => Lanes::AD,
+            _ => Lanes::BCD,
+        }
+    }
+    fn to_vec(l: &[[u64; 5]; 4]) -> [u64x4; 5] {
+        let mut v = [u64x4::splat(0); 5];
+        for i in 0..5 {
+            v[i] = u64x4::new(l[0][i], l[1][i], l[2][i], l[3][i]);
+        }
+        v
+    }
+    fn from_vec(v: &[u64x4; 5]) -> [[u64; 5]; 4] {
+        let mut l = [[0u64; 5]; 4];
+        for i in 0..5 {
+            let x: [u64; 4] = unsafe { core::mem::transmute(v[i]) };
+            for j in 0..4 {
+                l[j][i] = x[j];
+            }
+        }
+        l
+    }
+
+    impl U4 {
+        pub fn from_lanes(l: &[[u64; 5]; 4]) -> U4 {
+            U4(F51x4Unreduced(to_vec(l)))
+        }
+        pub fn lanes(&self) -> [[u64; 5]; 4] {
+            from_vec(&(self.0).0)
+        }
+        pub fn new(a: &Fe, b: &Fe, c: &Fe, d: &Fe) -> U4 {
+            U4(F51x4Unreduced::new(&a.0, &b.0, &c.0, &d.0))
+        }
+        pub fn zero() -> U4 {
+            U4(F51x4Unreduced::ZERO)
+        }
+        pub fn split(&self) -> [Fe; 4] {
+            let s = self.0.split();
+            [Fe(s[0]), Fe(s[1]), Fe(s[2]), Fe(s[3])]
+        }
+        pub fn diff_sum(&self) -> U4 {
+            U4(self.0.diff_sum())
+        }
+        pub fn negate_lazy(&self) -> U4 {
+            U4(self.0.negate_lazy())
+        }
+        pub fn shuffle(&self, c: u8) -> U4 {
+            U4(self.0.shuffle(shuf(c)))
+        }
+        pub fn blend(&self, o: &U4, c: u8) -> U4 {
+            U4(self.0.blend(&o.0, lanes(c)))
+        }
+        pub fn add(&self, o: &U4) -> U4 {
+            U4(self.0 + o.0)
+        }
+        pub fn reduce(&self) -> R4 {
+            R4(F51x4Reduced::from(self.0))
+        }
+    }
+    impl R4 {
+        pub fn from_lanes(l: &[[u64; 5]; 4]) -> R4 {
+            R4(F51x4Reduced(to_vec(l)))
+        }
+        pub fn lanes(&self) -> [[u64; 5]; 4] {
+            from_vec(&(self.0).0)
+        }
+        pub fn unreduced(&self) -> U4 {
+            U4(F51x4Unreduced::from(self.0))
+        }
+        pub fn shuffle(&self, c: u8) -> R4 {
+            R4(self.0.shuffle(shuf(c)))
+        }
+        pub fn blend(&self, o: &R4, c: u8) -> R4 {
+            R4(self.0.blend(&o.0, lanes(c)))
+        }
+        pub fn square(&self) -> U4 {
+            U4(self.0.square())
+        }
+        pub fn mul(&self, o: &R4) -> U4 {
+            U4(&self.0 * &o.0)
+        }
+        pub fn mul_consts(&self, c: (u32, u32, u32, u32)) -> U4 {
+            U4(&self.0 * c)
+        }
+        pub fn neg(&self) -> R4 {
+            R4(-self.0)
+        }
+        pub fn conditional_select(a: &R4, b: &R4, c: u8) -> R4 {
+            R4(F51x4Reduced::conditional_select(&a.0, &b.0, Choice::from(c)))
+        }
+        pub fn conditional_assign(&self, o: &R4, c: u8) -> R4 {
+            let mut t = self.0;
+            t.conditional_assign(&o.0, Choice::from(c));
+            R4(t)
+        }
+    }
+
+    pub fn extended_from_edwards(p: &EdwardsPoint) -> U4 {
+        U4(ExtendedPoint::from(*p).verif_raw())
+    }
+    pub fn extended_to_edwards(v: &U4) -> EdwardsPoint {
+        EdwardsPoint::from(ExtendedPoint::verif_from_raw(v.0))
+    }
+    pub fn extended_double(v: &U4) -> U4 {
+        U4(ExtendedPoint::verif_from_raw(v.0).double().verif_raw())
+    }
+    pub fn extended_mul_by_pow_2(v: &U4, k: u32) -> U4 {
+        U4(ExtendedPoint::verif_from_raw(v.0).mul_by_pow_2(k).verif_raw())
+    }
+    pub fn cached_from_extended(v: &U4) -> R4 {
+        R4(CachedPoint::from(ExtendedPoint::verif_from_raw(v.0)).verif_raw())
+    }
+    pub fn cached_neg(v: &R4) -> R4 {
+        R4((-&CachedPoint::verif_from_raw(v.0)).verif_raw())
+    }
+    pub fn extended_add_cached(e: &U4, c: &R4, subtract: bool) -> U4 {
+        let e = ExtendedPoint::verif_from_raw(e.0);
+        let c = CachedPoint::verif_from_raw(c.0);
+        if subtract {
+            U4((&e - &c).verif_raw())
+        } else {
+            U4((&e + &c).verif_raw())
+        }
+    }
+    pub fn identities() -> (U4, R4) {
+        use crate::traits::Identity;
+        (
+            U4(ExtendedPoint::identity().verif_raw()),
+            R4(CachedPoint::identity().verif_raw()),
+        )
+    }
+    #[cfg(feature = "precomputed-tables")]
+    pub fn basepoint_odd_table_entry(k: usize) -> R4 {
+        R4(crate::backend::vector::ifma::constants::BASEPOINT_ODD_LOOKUP_TABLE.0[k].verif_raw())
+    }
 }
